@@ -314,7 +314,7 @@ def base_queries(backend, tier):
     return qs, with_md
 
 
-def outcome(src_or_tree, backend):
+def outcome(src_or_tree, backend, fold_neg=False):
     from ..tv.gen import datamodel_for
     from ..tv.equiv import with_metadata
     from ..tv.translate import TranslationRaised, translate
@@ -327,7 +327,7 @@ def outcome(src_or_tree, backend):
     # the variant under test must reach the translator in ITS form (qastle trees are re-parsed from unparse text,
     # which preserves structure and names)
     try:
-        pkg = translate(q, backend)
+        pkg = translate(q, backend, fold_neg=fold_neg)      # fold_neg: negative literals reach the executor as ONE Constant node
     except TranslationRaised as e:
         return {"status": "raised", "exc": type(e.exc).__name__, "q": q, "dm": dm}
     return {"status": "ok", "files": pkg.files, "canon": canonical(pkg.files), "tree": pkg.treename, "q": q, "dm": dm}
@@ -341,6 +341,11 @@ def compare(a, b, backend, src):
         return "same", "both refused"
     if a["canon"] == b["canon"]:
         return "same", "identical up to numbering"
+    # `-5` written in the query text is the unary minus of 5 and is emitted (-(5)); the one-node constant -5 is emitted (-5):
+    # the same value, spelled differently (listed finding) - anything else that differs is still compared below
+    _sp = lambda t: re.sub(r"\(-\((\d[\w.+-]*?)\)\)", r"(-\1)", t)      # noqa: E731
+    if {k: _sp(v) for k, v in a["canon"].items()} == {k: _sp(v) for k, v in b["canon"].items()}:
+        return "benign", "negative-spelling: the packages differ only in (-(N)) versus (-N)"
     diff = [k for k in a["canon"] if a["canon"][k] != b["canon"].get(k)]
     cxx = {"query.cxx", "query.h", "Analyzer.cc"}
     if not set(diff) <= cxx:
@@ -375,7 +380,7 @@ def work(item):
         b = outcome(vt, backend)
         vsrc = ast.unparse(vt)
     else:
-        b = outcome(variant, backend)
+        b = outcome(variant, backend, fold_neg=(label == "negative-constant-as-one-node"))
         vsrc = ast.unparse(variant) if not isinstance(variant, str) else variant
     verdict, text = compare(a, b, backend, a["q"] if a["status"] == "ok" else orig_src)
     return {"verdict": verdict, "text": text, "item": item[:4], "variant_src": vsrc[:600], "a_status": a["status"]}
@@ -453,6 +458,7 @@ def main():
     from ..common import load_known_findings
     kfs = [f for f in load_known_findings("C08") if f.get("status") == "known" and f.get("label_regex")]
     fm = next((f for f in load_known_findings("C08") if f["id"] == "KF-first-message-embeds-query-text" and f.get("status") == "known"), None)
+    ns = next((f for f in load_known_findings("C08") if f["id"] == "KF-negative-literal-spelling-wire-format" and f.get("status") == "known"), None)
     counts = {}
     samples = []
     benign = []
@@ -473,6 +479,9 @@ def main():
                 if fm is not None and r["text"].startswith("first-message"):
                     rep.discharged -= 1
                     rep.known(fm["id"], fm["what"][:200] + f" | observed: {tag[:160]}")
+                if ns is not None and r["text"].startswith("negative-spelling"):
+                    rep.discharged -= 1
+                    rep.known(ns["id"], ns["what"][:200] + f" | observed: {tag[:160]}")
         elif r["verdict"] == "differ" and any(re.fullmatch(f["label_regex"], it[2]) and f["text_regex"] in r["text"] and (not f.get("src_regex") or re.search(f["src_regex"], it[3])) for f in kfs):
             f = next(f for f in kfs if re.fullmatch(f["label_regex"], it[2]) and f["text_regex"] in r["text"] and (not f.get("src_regex") or re.search(f["src_regex"], it[3])))
             rep.known(f["id"], f["what"][:200] + f" | observed: {tag[:160]}")
